@@ -118,6 +118,17 @@ class FindInConstants(FindByGlob):
                 else:
                     yield str(result)
 
+    def _parent_exists(self, root: Sid) -> bool:
+        """
+        The constant values exist under an existing parent only.
+        A parent that is not a search is looked up in the parent_source, as is done for a parent that is a search.
+        (Without parent_source, or for a root without parent, the values always exist.)
+        """
+        parent = root.parent
+        if not self.parent_source or parent == root:
+            return True
+        return self.parent_source.exists(parent)
+
     def star_search(
         self, search_sids: List[Sid], as_sid: bool = False, do_sort: bool = False
     ) -> Iterator[Sid] | Iterator[str]:
@@ -133,6 +144,9 @@ class FindInConstants(FindByGlob):
 
             # nothing to search, we yield
             if "*" not in str(root):
+
+                if not self._parent_exists(root):
+                    continue
 
                 if root not in done:
                     # done.add(root)  # TODO: useful ?
@@ -169,6 +183,8 @@ class FindInConstants(FindByGlob):
 
             # no parent search, we just need to append the constant values
             else:
+                if not self._parent_exists(root):
+                    continue
                 generator = self._append_value(root, done, as_sid=as_sid)
                 yield from generator
 
